@@ -190,7 +190,7 @@ def run(ctx: Ctx) -> None:
     for key in (f"{AMB}::Ambiguity.confidence_prediction", f"{RSK}::Risk.confidence_prediction", f"{IB}::IntervalBounds.confidence_prediction", f"{STD}::StdIntensity.confidence_prediction"):
         check_function_effects(ctx, "C12.EFFECTS", key)
     n = rule_prange(ctx, "C12.PRANGE", files=[AMB, RSK, IB, IT])
-    ctx.floor("C12.PRANGE", n, 8)
+    ctx.floor("C12.PRANGE", n, 5)
     rule_switch(ctx, "C12.SWITCH")
     rule_kernels(ctx)
     rule_regularise(ctx)
